@@ -84,8 +84,10 @@ CLAIMED = {
          "times symbolic) for each reaction class; its result is proven equal to the documented Bateman closed forms over an "
          "axiomatised exp (the oracle reuses the code's exp applications with provably equal arguments), non-negative (single "
          "capture and 'b'), linear in mass, with the fast/epithermal switches; the small-argument branch is proven accurate on "
-         "its guard region against a Taylor enclosure; Sample.calculate_activation plumbing on real rows."),
-   note="exp is an uninterpreted function constrained by sign/monotone/functional/tangent (and secant for 'b') axioms: identities hold for every such function, hence for exp; rounding, monotonicity in exposure and '2n' non-negativity are outside",
+         "its guard region against a Taylor enclosure; Sample.calculate_activation plumbing on real rows (oracle keyed by row "
+         "identity). The floats-as-reals assumption is discharged separately by a concrete sweep: all 513 real rows x a grid of "
+         "fluence, Cd ratio and exposure against the chain solution in 80-digit decimal arithmetic (relative 1e-5, non-negative)."),
+   note="exp is an uninterpreted function constrained by sign/monotone/functional/tangent (and secant for 'b') axioms: identities hold for every such function, hence for exp; monotonicity in exposure and the symbolic '2n' non-negativity are outside; one known finding (cancellation in the '2n' branch at small rate*exposure)",
    technique="symbolic execution of the real Python function on z3 Real proxies with an axiomatised exp + SMT (QF_NRA) validity queries; counterexamples replayed against an 80-digit decimal evaluation",
    ref='4/C14'),
  'C15': dict(
@@ -111,9 +113,12 @@ CLAIMED = {
    text=("Partial: the abundance pass of the real mass.init is executed on fresh private tables with synthetic composition texts "
          "whose abundance values are symbolic (normalisation to 100%, zero for unlisted isotopes, last element of the text "
          "included); density / number density / interatomic distance relations are proven for symbolic density and masses, and "
-         "unknown density gives None; parse_uncertainty notation is searched by CrossHair. The row-by-row sweep of the embedded "
-         "tables is stated as outside (no symbolic variable)."),
-   note="partial claim: table sweep outside; CrossHair on parse_uncertainty is a counterexample finder ('Not confirmed' = inconclusive)",
+         "unknown density gives None; parse_uncertainty notation is searched by CrossHair. The row-by-row association of the "
+         "embedded tables has no symbolic variable: it is covered by an exhaustive concrete sweep (every element and isotope, "
+         "public and a fresh private table: mass, mass uncertainty, abundance and its uncertainty, sums to 100, weighted "
+         "isotope mass within the stated uncertainties, density of every isotope) against an independent reading, reported "
+         "as ground facts, not as a solver claim."),
+   note="partial claim: the solver decides the loader logic and the relations; the table sweep is concrete; CrossHair on parse_uncertainty is a counterexample finder ('Not confirmed' = inconclusive)",
    technique="symbolic execution of the real loader and property functions on z3 Real proxies + SMT validity; CrossHair on the notation parser",
    ref='4/C06'),
  'C07': dict(
@@ -121,8 +126,10 @@ CLAIMED = {
          "through fix_number): every field is proven to hold its own column, flags/spin/abundance/half-life handling, "
          "b_c_complex = b_c - i*absorption/(2000*1.798), shared record of single-isotope elements, no-SLD atoms; each "
          "energy-dependent table is covered for all wavelengths by the interp fork tree (nodes, chords, clamped ends) and at "
-         "every node concretely. The 364-row text sweep is outside."),
-   note="partial claim: table sweep outside; np.interp is an exact semantic model over the concrete node arrays",
+         "every node concretely. The 364-row association has no symbolic variable: an exhaustive concrete sweep (public table, "
+         "and two further initialisations on fresh private tables; every field, has_sld, no-row atoms incl. isotopes added "
+         "after loading, energy-table axes and nodes) against an independent reading is reported as ground facts."),
+   note="partial claim: the solver decides the loader logic; the row sweep is concrete; np.interp is an exact semantic model over the concrete node arrays",
    technique="symbolic execution of the real loader on z3 Real proxies + SMT validity; fork-tree model of numpy.interp; CrossHair on fix_number",
    ref='4/C07'),
 
@@ -133,7 +140,7 @@ CLAIMED = {
          "density, masses and uninterpreted per-element scattering-factor functions of the energy (energy/wavelength agreement, "
          "vector vs scalar, linearity in density, isotope independence); (c) mirror_reflectivity is proven to lie in [0,1] for "
          "an arbitrary complex refractive index over complex-sqrt / sin-cos / exp contracts; (d) f0 symbol resolution by CrossHair."),
-   note="quick: 14-node windows around absorption edges of 4 elements, thorough: 60-node windows of 14 elements and two whole tables; NaN-endpoint segments and doubled edge energies excluded; one known finding (si.nff row order)",
+   note="quick: 14-node windows around absorption edges of 4 elements, thorough: 60-node windows of 14 elements and two whole tables; NaN-endpoint segments and doubled edge energies excluded; every node of every shipped table is additionally checked concretely (ground); one known finding (si.nff row order)",
    technique="symbolic execution of the real Python functions on z3 Real/complex proxies + SMT (QF_NRA/QF_UFNRA) validity queries; CrossHair for the symbol logic",
    ref='4/C05'),
  'C18': dict(
@@ -148,8 +155,11 @@ CLAIMED = {
    text=("Partial: the magnetic form-factor methods and the Cromer-Mann evaluator run on symbolic coefficient sets and symbolic "
          "Q (scalar and vector) and are proven equal to A exp(-a s^2)+B exp(-b s^2)+C exp(-c s^2)+D (times s^2 for n>0) with "
          "s = Q/4pi, with the Q=0 limits for all coefficients and NaN beyond the fitted range. Which table row is attached to "
-         "which element/ion is outside (finite association, no symbolic variable); shipped-table limits are reported as ground facts."),
-   note="partial claim; exp axiomatised (oracle reuses the code's applications)",
+         "which element/ion has no symbolic variable (finite association): it is covered by an exhaustive concrete sweep on the "
+         "public and a fresh private table against independent readings of the embedded texts (CFML magnetic coefficients per "
+         "charge state, DABAX f0 entries incl. the per-ion API, covalent radii and uncertainties, emission lines, crystal "
+         "structures by position), reported as ground facts, not as a solver claim."),
+   note="partial claim: the solver decides the evaluators; associations are a concrete sweep; exp axiomatised (oracle reuses the code's applications)",
    technique="symbolic execution of the real Python functions through numpy on z3 Real proxies + SMT validity",
    ref='4/C20'),
 }
